@@ -6,7 +6,7 @@ import "strings"
 // column-major operand or destination.
 func init() {
 	gens["C16"] = func(tier string, r *rng, emit func(string)) {
-		for _, p := range []string{"C01", "C02", "C03", "C04", "C06", "C07", "C08", "C09", "C10", "C11", "C12", "C13"} {
+		for _, p := range []string{"C01", "C02", "C03", "C04", "C06", "C07", "C08", "C09", "C10", "C11", "C12", "C13", "C14"} {
 			g := gens[p]
 			n := 0
 			g(tier, r, func(c string) {
